@@ -79,7 +79,7 @@ Proof.
   - intros r L. rewrite (uses_awg_on (chmap st) (chmap st') (r_chans r) a (Hm r L)). auto.
 Qed.
 
-Definition on_awg (a : N) (l : list sch) : list sch := filter (fun s => N.eqb (s_awg s) a) l.
+(* on_awg : Spec.v *)
 
 Lemma on_awg_members a l l' :
   same_members sch_full_eqb (on_awg a l) (on_awg a l') = true ->
